@@ -69,4 +69,5 @@ mod c17;
 mod c18;
 mod c19;
 mod c20;
+mod probe;
 mod c13;
